@@ -3,6 +3,7 @@ package harness
 import (
 	"fmt"
 	"os"
+	"sync"
 	"path/filepath"
 	"regexp"
 	"strconv"
@@ -19,6 +20,15 @@ type C20Case struct {
 	ListRoot bool   `json:"listroot"` // which parser the document is for
 	Kind     string `json:"kind"`     // injected error kind (informational)
 	Depth    int    `json:"depth"`    // nesting depth of the error (informational; 0 = directly in the root)
+	// Companions: further erroneous documents that other goroutines parse at the same time (each call
+	// must cite its own line whatever else is being parsed)
+	Companions []C20Doc `json:"companions,omitempty"`
+}
+
+type C20Doc struct {
+	Text     string `json:"text"`
+	Pos      int    `json:"pos"`
+	ListRoot bool   `json:"listroot"`
 }
 
 var invalidLiterals = []string{"tru", "1x", "bogus", "nul", "fals", "1.2.3", "--1", "1e", ".", "-", "e5", "NULL", "1,5"[:1] + "_", "0x", "é"}
@@ -55,6 +65,9 @@ func (g *c20gen) str(s string) {
 			g.sb.WriteByte('\\')
 			g.sb.WriteRune(r)
 		case (r == '\n' || r == '\r') && g.rawNL:
+			if oneIn(g.t, 3, "bsnl") {
+				g.sb.WriteByte('\\') // a backslash directly followed by the raw line break (lenient parsers accept it)
+			}
 			g.sb.WriteRune(r) // raw newline / carriage return inside a string: only '\n' is a newline character of the input
 		case r < 0x20:
 			fmt.Fprintf(&g.sb, `\u%04x`, r)
@@ -204,6 +217,17 @@ func c20sites(root V) []c20site {
 var c20kindNames = map[int]string{1: "invalid_literal_in_list", 2: "invalid_literal_in_object", 3: "bad_key_start", 4: "bad_after_key", 5: "bad_after_nested_value"}
 
 func GenC20(t *rapid.T) *C20Case {
+	c := genC20(t)
+	if oneIn(t, 12, "concurrent") {
+		for i, n := 0, drawInt(t, 1, 3, "ncomp"); i < n; i++ {
+			d := genC20(t)
+			c.Companions = append(c.Companions, C20Doc{Text: d.Text, Pos: d.Pos, ListRoot: d.ListRoot})
+		}
+	}
+	return c
+}
+
+func genC20(t *rapid.T) *C20Case {
 	cfg := TreeCfg{MaxDepth: 4, MaxWidth: 4, MaxStr: 6, KeyGen: func(t *rapid.T) string {
 		return GenString(t, 4)
 	}}
@@ -298,6 +322,43 @@ func GenC20(t *rapid.T) *C20Case {
 var lineRe = regexp.MustCompile(`on line (\d+)$`)
 
 func CheckC20(c *C20Case, st *Stats) error {
+	if err := checkC20Doc(c, st); err != nil {
+		return err
+	}
+	if len(c.Companions) == 0 {
+		return nil
+	}
+	// the same document and its companions parsed by several goroutines at the same time
+	st.Count("concurrent_parses")
+	docs := append([]C20Doc{{Text: c.Text, Pos: c.Pos, ListRoot: c.ListRoot}}, c.Companions...)
+	errs := make([]error, len(docs))
+	start := make(chan struct{})
+	var wg sync.WaitGroup
+	for i := range docs {
+		wg.Add(1)
+		go func(i int) {
+			defer wg.Done()
+			<-start
+			d := docs[i]
+			for rep := 0; rep < 8 && errs[i] == nil; rep++ {
+				errs[i] = checkC20Doc(&C20Case{Text: d.Text, Pos: d.Pos, ListRoot: d.ListRoot, Kind: "companion"}, nil, fmt.Sprintf("-g%d", i))
+			}
+		}(i)
+	}
+	close(start)
+	wg.Wait()
+	for i, e := range errs {
+		if e != nil {
+			return errf("while %d other documents were being parsed concurrently (document %d): %v", len(docs)-1, i, e)
+		}
+	}
+	return nil
+}
+
+func checkC20Doc(c *C20Case, st *Stats, fileTag ...string) error {
+	if st == nil {
+		st = NewStats()
+	}
 	if c.Pos < 0 || c.Pos >= len(c.Text) {
 		return nil
 	}
@@ -353,7 +414,7 @@ func CheckC20(c *C20Case, st *Stats) error {
 	if err := checkErr("ParseObject", o.err, o.c != nil); err != nil {
 		return err
 	}
-	path := filepath.Join(scratchDir(), "c20.json")
+	path := filepath.Join(scratchDir(), "c20"+strings.Join(fileTag, "")+".json") // one file per concurrent goroutine
 	if werr := os.WriteFile(path, []byte(c.Text), 0o600); werr != nil {
 		return &HarnessBug{fmt.Sprintf("cannot write scratch file: %v", werr)}
 	}
